@@ -51,7 +51,7 @@ func (c06) Gen(r *rand.Rand, tier string, idx int) *core.Plan {
 	w["rootEnd"] = int64(core.Pick(r, 2, 2, 2, 1))
 	w["expiry"] = int64(r.IntN(3))  // none, 1h, 3h
 	w["tsaMode"] = int64(r.IntN(4)) // 0 no tsa store, 1 listed + unset, 2 always, 3 afterCertExpiry
-	w["counter"] = int64(core.Pick(r, 0, 1, 1, 1, 2, 3, 4, 5, 6, 7, 8, 9, 9, 9, 10, 11, 12))
+	w["counter"] = int64(core.Pick(r, 0, 1, 1, 1, 2, 3, 4, 5, 6, 7, 8, 9, 9, 9, 10, 11, 12, 13, 14))
 	// signing-authority: where the (authentic) signing time lies relative to the leaf's window; 0 = honest
 	w["rogue"] = int64(core.Pick(r, 0, 0, 1, 2, 3, 4, 5))
 	w["viaSigner"] = int64(r.IntN(2))
@@ -290,6 +290,10 @@ func (l c06) Exec(env *core.Env) *core.Result {
 			tsVal.Results = []revresult.Result{revresult.ResultRevoked, revresult.ResultOK}
 		case 10:
 			tsVal.Results = []revresult.Result{revresult.ResultUnknown, revresult.ResultOK}
+		case 13: // the revocation check of the TSA chain fails with an error of the context family, the caller's context being alive
+			tsVal.Err = fmt.Errorf("simulated: OCSP request to the TSA's responder: %w", context.DeadlineExceeded)
+		case 14:
+			tsVal.Err = fmt.Errorf("simulated: CRL download for the TSA chain: %w", context.Canceled)
 		}
 		stores := []string{storeType + ":s"}
 		tsaMode := w["tsaMode"]
